@@ -239,10 +239,10 @@ def C11(t0):
     _warm()
     obs = par.run_groups(fields.jobs_C11())
     return finish('C11', obs, t0, level='proof',
-        functions=['from_le_bytes_mod_order / from_be_bytes_mod_order (inherent and PrimeField)', 'PrimeField::{from_bigint, into_bigint}', 'CanonicalSerializeWithFlags / CanonicalDeserializeWithFlags (EmptyFlags, TEFlags, SWFlags)'],
-        bounds=['byte strings of every length 0..=200 (bytes symbolic); all limb / byte values symbolic'],
+        functions=['from_le_bytes_mod_order / from_be_bytes_mod_order (inherent and PrimeField)', 'PrimeField::{from_bigint, into_bigint}', 'CanonicalSerializeWithFlags / CanonicalDeserializeWithFlags (EmptyFlags, TEFlags, SWFlags)', 'impl FromStr for Fq/Fr/Fp (arkworks build)'],
+        bounds=['byte strings of every length 0..=200 (bytes symbolic); all limb / byte values symbolic', 'FromStr: strings of 0..=24 arbitrary chars (quick) / 0..=90 (thorough), digit values as free field symbols; longer strings outside the claim; Display is compared natively only'],
         trusted=[T_RUSTC, T_ARK, 'FIELD_SIZE_POWER_OF_TWO = 2^(8N) mod p is C17; the 32-bit conversions rest on the fiat kernels to_montgomery (decided for unreduced inputs) / from_montgomery / to_bytes / from_bytes, which this check decides (dv/fiat.py)'],
-        assumptions=['flag types modelled by their documented bit layout'])
+        assumptions=['flag types modelled by their documented bit layout', 'str::chars / Chars::next / char::to_digit(_, 10) / u64::from(u32) modelled by their documented meaning (an arbitrary char is a decimal digit or not: forked)', 'stubs: core::fmt argument construction and _eprint (the stray ark_std::dbg! at the top of Fr::from_str) have empty bodies'])
 
 def C16(t0):
     from . import consts, fields
